@@ -271,8 +271,20 @@ class Check(object):
                 if len(src) < per_case:
                     src.append(t)
         keys = sorted(cases)
-        progs = [[lockprogs.program((tuple(p[0]), p[1])) for p in cases[k]["pats"]] for k in keys]
-        cycles, gen, dist, wall = tlc.lock_cases(progs)
+        # TLC sees each distinct *shape* once (locks renamed in order of first appearance, programs ordered)
+        shapes, shape_of = {}, []
+        for k in keys:
+            sh, swapped = lockprogs.shape_of([lockprogs.program((tuple(p[0]), p[1])) for p in cases[k]["pats"]])
+            sk = json.dumps(sh)
+            if sk not in shapes:
+                shapes[sk] = (len(shapes), sh)
+            shape_of.append((shapes[sk][0], swapped))
+        ordered = [sh for (_, sh) in sorted(shapes.values(), key=lambda x: x[0])]
+        scycles, gen, dist, wall = tlc.lock_cases(ordered)
+        cycles = {}
+        for ci, (si, swapped) in enumerate(shape_of):
+            if si in scycles:
+                cycles[ci] = [list(reversed(pos)) if swapped else pos for pos in scycles[si]]
         self.states += dist
         self.transitions += gen
         self.mc_runs.append({"module": "LockCases", "cfg": "LockCases.cfg", "distinct": dist, "generated": gen,
@@ -300,10 +312,13 @@ class Check(object):
                                                        "steered_executions": 0, "realised": 0, "candidates": []})
         info["lock_events"] += nev
         info["distinct_cases"] += len(keys)
+        info["distinct_shapes"] = info.get("distinct_shapes", 0) + len(ordered)
         info["candidate_cycles"] += len(cand)
         info["steered_executions"] += len(steer)
         info["realised"] += len(self.violations) - before
         info["candidates"] = (info["candidates"] + cand)[:12]
+        if os.environ.get("MXV_DEBUG_LOCKS"):
+            json.dump(cand, open(os.environ["MXV_DEBUG_LOCKS"], "w"))
         return cand
 
     def replay_behaviours(self, behs, convert, project, trace_module, unordered=()):
